@@ -285,7 +285,10 @@ class Model(object):
 
     def min_objective_value(self):
         # Get termination criterion for f small: f <= abs_tol or f <= rel_tol * f0
-        return max(self.abs_tol, self.rel_tol * self.objbeg)
+        rel_thresh = self.rel_tol * self.objbeg
+        if not np.isfinite(rel_thresh):  # f(x0) was inf/NaN: a relative test would accept any value
+            return self.abs_tol
+        return max(self.abs_tol, rel_thresh)
 
     def model_value(self, d, d_based_at_xopt=True, with_const_term=False):
         if d_based_at_xopt:
